@@ -26,6 +26,11 @@ def run(ctx):
                       timeout=600 if q else 2400, label="ledger design model (exhaustive, BigNat)")
     ec.must_be_refuted(ctx, "MC_Ledger", "MC_Ledger_f3.cfg", "VETConserved", "F3 in the model: self-destruct-to-self breaks conservation")
 
+    # growth (DESIGN section 8): energy generation and the energy contract's own totals, Energy.tla
+    ctx.tlc_must_hold("exec", "MC_Energy", cfg="MC_Energy.cfg" if q else "MC_Energy_thorough.cfg", workers=4, timeout=1500,
+                      label="energy growth / settle-then-modify / supply law (exhaustive)")
+    ec.must_be_refuted(ctx, "MC_Energy", "MC_Energy_broken.cfg", "SupplyLaw", "energy: an unsettled VET transfer breaks the supply law")
+
     binp = ctx.build("ledger")
     out = ctx.tmp("ledger")
     if ctx.replay:
@@ -79,8 +84,27 @@ def run(ctx):
             cur = e["galactica"]
         gal[id(e)] = cur if e["e"] != "End" else None
 
+    # Python mirror of the supply law, used only to NAME a rejection (energy:supply-law); the verdict is TLC's
+    energy_bad, law = set(), {}
+    max_slack = 0
+    for e in events:
+        if e["e"] == "Reset":
+            law = {e["gen"]["id"]: (0, 0)}
+        elif e["e"] == "Block" and e["parent"] in law:
+            pslack, pburnt = law[e["parent"]]
+            burnt = pburnt + ec.val(e["burnVTHO"])
+            net = ec.val(e["supply"]) - ec.val(e["burned"]) * (-1 if e["burnedNeg"] else 1)
+            slack = net - ec.val(e["postVTHO"]) - burnt
+            if slack < 0 or slack > pslack + e["leaves"]:
+                energy_bad.add(id(e))
+            max_slack = max(max_slack, slack)
+            law[e["id"]] = (max(slack, 0), burnt)
+
     def classify(ev):
-        return ec.classify_block(ev, gal.get(id(ev), -1))
+        sig = ec.classify_block(ev, gal.get(id(ev), -1))
+        if sig == "block-rejected" and id(ev) in energy_bad:
+            return "energy:supply-law"
+        return sig
 
     def drop_run(evs, i):
         # remove the whole profile run containing event i (children of a dropped block would lose their parent)
@@ -121,6 +145,10 @@ def run(ctx):
     ctx.cov["blocks_delegator_split"] = sum(1 for b in blocks if b["split"])
     ctx.cov["blocks_after_growth_stop"] = sum(1 for b in blocks if b["stopped"])
     ctx.cov["sibling_blocks"] = sum(1 for b in blocks if b["sibling"])
+    ctx.cov["energy_supply_law_blocks"] = len(blocks)
+    ctx.cov["energy_supply_law_max_rounding_wei"] = max_slack
+    ctx.cov["energy_blocks_growing"] = sum(1 for b in blocks if not b["stopped"])
+    ctx.cov["energy_runs_crossing_growth_stop"] = len({b["prof"] for b in blocks if b["stopped"]} & {b["prof"] for b in blocks if not b["stopped"]})
     ctx.cov["max_leaves_summed"] = max(b["leaves"] for b in blocks)
     kinds = {}
     for s in stats:
@@ -132,6 +160,8 @@ def run(ctx):
         ctx.sample({k: b[k] for k in ("prof", "num", "preVET", "postVET", "preVTHO", "postVTHO", "burnVET", "burnVTHO", "issued", "hdr", "par")}
                    | {"receipts": [{k: r[k] for k in ("gasUsed", "paid", "reward")} for r in b["rcpts"][:3]]})
     ctx.assumptions += [
+        "energy supply law: rounding of at most one wei per account per block is allowed between the energy contract's TotalSupply - TotalBurned "
+        "and the per-leaf sum; the 1e6 wei VET destroyed by the deterministic F3 call makes TotalSupply over-estimate growth by 0.005 wei/s, inside that bound",
         "energy of an account at a block time is computed by a reference implementation of the documented growth formula in the driver "
         "(5e9 wei per VET per second, stops at the recorded growth-stop time), not by state.Account.CalcEnergy",
         "legacy transactions carry no proved work (the drivers never mine a nonce); the reward rule with proved work is not covered",
@@ -154,6 +184,10 @@ def binding_demo(ctx, events):
     j = blocks[len(blocks) // 3]
     bad2[j]["rcpts"][0]["reward"] = ec.limbs(ec.val(bad2[j]["rcpts"][0]["reward"]) + 1)
     variants["corrupted-reward"] = bad2
+    bad3 = [json.loads(json.dumps(e)) for e in events]
+    m = blocks[len(blocks) // 5]
+    bad3[m]["supply"] = ec.limbs(ec.val(bad3[m]["supply"]) + 10 ** 6)     # the energy contract's total supply off by 1e6 wei
+    variants["corrupted-supply"] = bad3
     k = blocks[len(blocks) // 4]
     variants["deleted-event"] = events[:k] + events[k + 1:]
     for name, evs in variants.items():
@@ -163,7 +197,7 @@ def binding_demo(ctx, events):
         accepted, hwm, ln, r = ctx.validate_trace("exec", "Trace_Ledger", path, timeout=1500)
         if accepted:
             raise Infra("binding demonstration failed: %s trace was accepted by Trace_Ledger" % name)
-    ctx.cov["binding_demo"] = "corrupted-total, corrupted-reward and deleted-event variants of the recorded trace were rejected"
+    ctx.cov["binding_demo"] = "corrupted-total, corrupted-reward, corrupted-supply (energy law) and deleted-event variants of the recorded trace were rejected"
 
 
 def renumber_keep_gap(evs, k):
